@@ -950,7 +950,8 @@ def rule_first_match(prog, rep, tier, anchor="parse._merge_inner_function", owne
     (breadth-first: the class's own method comes before any method of a nested class).  The selection over
     `ast.walk(<class>)` is classified by its shape: next(...) / [0] / loop with break or return at the first hit select the
     first; deque(maxlen=1) / [-1] / reversed / a dict built from the matches / a loop that keeps assigning select the last."""
-    cands = [prog.fn(anchor)] if prog.has_fn(anchor) else [f for f in prog.region(prog.fn(owner)) if f.parent_fn is None]
+    # the selection may live in a private helper of the merge function (`_find_function_def(node, name)`)
+    cands = [f for f in prog.region(prog.fn(anchor))] if prog.has_fn(anchor) else [f for f in prog.region(prog.fn(owner)) if f.parent_fn is None]
     n = 0
     for fi in cands:
         for w in ast.walk(fi.node):
